@@ -9,7 +9,7 @@ META = {
     "text": "Couplings objects (QCD order 1-4, QED order 0-2, alpha_em fixed or running, exact and expanded, nf 3-5, alpha_s in [0.08,0.35], alpha_em in [0.001,0.01], reference scale 2.5-200 GeV, matching scales moved out of the way): a(mu_ref) == a_ref bitwise; local RGE of the exact solution at the reference point, da/dln mu^2 from a 5-point difference (h = 0.006) against -beta(a_ref) rebuilt from an independent table of beta coefficients (QCD beta_0-3, mixed a_s^2 a_em and a_em^2 a_s terms, QED beta_0-1), with a_em bitwise constant when it does not run; |expanded - exact| under a_ref -> a_ref/2 at fixed ln mu^2 vanishes like a^(n+2) (the first power the truncated RGE neglects), like a^3 when alpha_em runs; a_s strictly decreasing along 22 increasing scales.",
     "note": "Local RGE: clean residual <= 2e-10 (pure FD truncation; the Radau solution is far more accurate than its rtol over such a span), required <= 1e-7; a 10% error in beta_3 shows at >= 3e-5 for the smallest alpha_s and >= 5e-4 for alpha_s >= 0.2, the mixed term at 6e-6. Expanded order: clean exponents >= n+2.4 for NLO/NNLO, required >= n+2-0.35; the exact branch is itself numerical (rtol 1e-6), differences below 1e-5 of the evolved distance are dropped and cells without points are 'unresolved'. The law is local in the patch: threshold matching is C16, history independence C17.",
     "design_ref": "1 (mode L), 4.11, 5 C15",
-    "rule": "cell = (clause, QCD order, QED order, running, method, nf); 6 (quick) / 40 (thorough) seeded (alpha_s, alpha_em, mu_ref) per cell; worst residual / smallest exponent recorded",
+    "rule": "cell = (clause, QCD order, QED order, running, method, nf); 6 (quick) / 40 (thorough) seeded (alpha_s, alpha_em, mu_ref) per cell; worst residual / lower-quartile exponent recorded",
 }
 
 
